@@ -50,6 +50,7 @@ type ParsedMsg struct {
 }
 
 type TxInfo struct {
+	SigMod string
 	Lines   []string
 	Fee     sdk.Coins
 	Signers []sdk.AccAddress
@@ -381,6 +382,11 @@ func (x *Exec) Run(lines []string) {
 				x.cur.Top = append(x.cur.Top, pm.Msg)
 			}
 			x.cur.Msgs = append(x.cur.Msgs, pm)
+		case "SIGMOD":
+			// the signatures of this transaction will not be signatures over it: "corrupt" flips a byte of each, "otherbody"
+			// takes them from the same transaction with another memo (a signature made for a different sign document)
+			x.cur.SigMod = f[1]
+			x.cur.Lines = append(x.cur.Lines, l)
 		case "X":
 			x.inExec, x.execG, x.execMsgs = true, s(f[1]), nil
 			x.declAddrString(x.execG)
@@ -405,6 +411,10 @@ func (x *Exec) Run(lines []string) {
 			var result string
 			balBefore := x.watchBalances()
 			bz, err := x.C.BuildTx(x.cur.Top, x.cur.Signers, x.cur.Fee, x.mode)
+			if err == nil && x.cur.SigMod != "" {
+				bz, err = x.C.modifySignatures(bz, x.cur, x.mode)
+				x.Stats["sigmod:"+x.cur.SigMod]++
+			}
 			if err != nil {
 				result = "R builderr " + strings.ReplaceAll(err.Error(), "\n", " ")
 			} else {
@@ -414,6 +424,10 @@ func (x *Exec) Run(lines []string) {
 					x.Node.blk.txs = append(x.Node.blk.txs, bz)
 					x.Node.blk.res = append(x.Node.blk.res, res)
 				}
+			}
+			if x.cur.SigMod != "" && strings.HasPrefix(result, "R ok") {
+				x.Flag("C14-signature-not-bound", "a transaction was accepted although its signatures were made over a different sign document ("+x.cur.SigMod+")")
+				x.Flag("C02-writer-signed", "a transaction was accepted although its signatures are not signatures over it ("+x.cur.SigMod+")")
 			}
 			x.Out.Cmd(l, result)
 			balAfter := x.watchBalances()
@@ -521,7 +535,21 @@ func (x *Exec) Run(lines []string) {
 			for _, d := range watchDenoms {
 				supBefore = append(supBefore, x.C.App.BankKeeper.GetSupply(x.C.Ctx(), d).Amount)
 			}
-			x.C.App.EndBlock(abci.RequestEndBlock{Height: x.C.Height})
+			halted := func() (h bool) {
+				defer func() {
+					if e := recover(); e != nil {
+						h = true
+						x.Flag("C07-halt", fmt.Sprintf("EndBlock at height %d panicked (the chain halts): %v", x.C.Height, e))
+						x.Flag("C17-endblock-panic", fmt.Sprintf("EndBlock at height %d panicked: %v", x.C.Height, e))
+					}
+				}()
+				x.C.App.EndBlock(abci.RequestEndBlock{Height: x.C.Height})
+				return false
+			}()
+			if halted {
+				x.Out.Cmd(l, "B halted")
+				return // a halted chain processes nothing further
+			}
 			bl := "B " + coinsTok(sp)
 			for i, d := range watchDenoms {
 				bl += " " + x.C.App.BankKeeper.GetSupply(x.C.Ctx(), d).Amount.Sub(supBefore[i]).String()
